@@ -77,8 +77,20 @@ try:
         subprocess.check_call(['git', '-C', R + '/repo', 'clean', '-fdq'])
         results[name] = [name, prop, verdict, obl]
         print('\t'.join(results[name])[:220], flush=True)
-        with open('seeded/RESULTS.tsv', 'w') as f:
-            for k in sorted(results):
-                f.write('\t'.join(results[k]) + '\n')
+        # several shards may run side by side: merge this row into the file under a lock
+        import fcntl
+        with open('seeded/.results.lock', 'w') as lk:
+            fcntl.flock(lk, fcntl.LOCK_EX)
+            cur = {}
+            if os.path.exists('seeded/RESULTS.tsv'):
+                for l in open('seeded/RESULTS.tsv'):
+                    f = l.rstrip('\n').split('\t')
+                    if len(f) >= 3:
+                        cur[f[0]] = (f + [''])[:4]
+            cur[name] = results[name]
+            with open('seeded/RESULTS.tsv.tmp', 'w') as f:
+                for k in sorted(cur):
+                    f.write('\t'.join(cur[k]) + '\n')
+            os.replace('seeded/RESULTS.tsv.tmp', 'seeded/RESULTS.tsv')
 finally:
     shutil.rmtree(R, ignore_errors=True)
